@@ -100,7 +100,7 @@ class PanicSites:
             s2 = dict(s, body=v, bb=vb, term=v.blocks[vb]["term"])
             r = self.discharge_local(s2)
             if not r:
-                row = table_row(s2, site_atoms(self.f, s2))
+                row = table_row(s2, site_atoms(self.f, s2), self.f)
                 r = row[0] if row else None
             if not r:
                 return None
@@ -282,7 +282,31 @@ class PanicSites:
 from .panic_table import ROWS as TABLE
 
 
-def table_row(s, atoms):
+def _module_of(p):
+    p = re.sub(r"(::\{closure#\d+\})+$", "", p)
+    return p.rsplit("::", 1)[0] if "::" in p else p
+
+
+def table_row(s, atoms, facts=None):
+    r = _table_row(s, atoms)
+    if r is not None or facts is None:
+        return r
+    # a row names one function; when that function no longer exists (a private helper was renamed, or a closure body moved into a
+    # helper of the same module) the row still speaks about the same operand: same module, same kind of site, same operand origin
+    p = s["body"].path
+    mod = _module_of(p)
+    for suf, kind, pats, reason, indep in TABLE:
+        if suf.endswith("*") or s["kind"] != kind or not atoms_have(atoms, *pats):
+            continue
+        if any(q == suf or q.endswith("::" + suf) or q.endswith(suf) for q in facts.bodies):
+            continue          # the row's function still exists: it speaks about that function only
+        rmod = _module_of(suf)
+        if mod == rmod or mod.endswith("::" + rmod) or mod.endswith(rmod):
+            return reason + " (row written for %s, which no longer exists in this module)" % suf, indep
+    return None
+
+
+def _table_row(s, atoms):
     p = s["body"].path
     for suf, kind, pats, reason, indep in TABLE:
         if suf.endswith("*"):
@@ -376,7 +400,7 @@ def panic_under_lock(ctx, f, g, cfg, P, only_manager_modules=True):
         if d:
             continue
         atoms = site_atoms(f, s)
-        row = table_row(s, atoms)
+        row = table_row(s, atoms, f)
         if row and row[1]:
             continue
         if not row and ps.discharge_in_context(s):
